@@ -414,6 +414,9 @@ package spec
 //@   defines  result == normBase(in)
 //@   ensures  canonical @@ cwdAvailable() ==> canonicalURL(result)
 //@   ensures  non-empty @@ urlOK(result) && urlScheme(result) != "" && result != ""
+//@   ensures  keeps-canonical-base @@ urlOK(in) && urlScheme(in) != "" && hasPrefix(urlPath(in), "/") && pathClean(urlPath(in)) == urlPath(in) ==>
+//@               urlScheme(result) == urlScheme(in) && urlHost(result) == urlHost(in) && urlPath(result) == urlPath(in) && urlFrag(result) == ""
+//@               && urlQuery(result) == (urlScheme(in) == "file" ? "" : urlQuery(in))
 //@   ensures  file-no-query @@ cwdAvailable() && (!urlOK(in) || urlScheme(in) == "" || (urlScheme(in) == "file" && !hasPrefix(pathClean(urlPath(in)), "/"))) ==> urlScheme(result) == "file" && urlQuery(result) == ""
 //@   ensures  keeps-scheme @@ urlOK(in) && urlScheme(in) != "" && urlScheme(in) != "file" ==> urlScheme(result) == urlScheme(in) && urlHost(result) == urlHost(in) && urlQuery(result) == urlQuery(in)
 //@   ensures  idempotent @@ canonicalURL(in) && in == urlStr(urlScheme(in), urlHost(in), urlPath(in), urlQuery(in), "") ==> result == in
@@ -551,8 +554,9 @@ package spec
 //@ specfn docOf(string) interface{}
 
 //@ define wfResolver(r *schemaLoader) bool = r != nil && r.options != nil && r.context != nil && r.cache != nil
-//@    && r.context.circulars != nil && r.context.loadDoc != nil
+//@    && r.context.circulars != nil && r.context.loadDoc != nil && urlOK(r.context.basePath)
 //@ define refString(r *Ref) string = r.referenceURL == nil ? "" : urlStr(r.referenceURL.Scheme, r.referenceURL.Host, r.referenceURL.Path, r.referenceURL.RawQuery, r.referenceURL.Fragment)
+//@ define refStringV(r Ref) string = r.referenceURL == nil ? "" : urlStr(r.referenceURL.Scheme, r.referenceURL.Host, r.referenceURL.Path, r.referenceURL.RawQuery, r.referenceURL.Fragment)
 //@ define containsStr(c []string, x string) bool = exists i int :: 0 <= i && i < len(c) && c[i] == x
 
 //@ ext github.com/go-openapi/swag.ContainsStrings
@@ -768,13 +772,14 @@ package spec
 //@ func newResolverContext
 //@   property C16, C04
 //@   assigns  nothing
-//@   ensures  freshObj(result) && result.circulars != nil && result.loadDoc != nil && len(result.circulars) == 0
+//@   uses     normalizeBase.non-empty(options.RelativeBase)
+//@   ensures  freshObj(result) && result.circulars != nil && result.loadDoc != nil && len(result.circulars) == 0 && urlOK(result.basePath)
 //@   ensures  options != nil && options.RelativeBase != "" ==> result.basePath == normBase(options.RelativeBase)
 //@   ensures  forall k string :: !has(result.circulars, k)
 
 //@ func defaultSchemaLoader
 //@   property C10, C16, C04
-//@   requires context == nil || (context.circulars != nil && context.loadDoc != nil)
+//@   requires context == nil || (context.circulars != nil && context.loadDoc != nil && urlOK(context.basePath))
 //@   assigns  expandOptions.RelativeBase, ghost(cacheDom, cacheDoc)
 //@   ensures  wf @@ freshObj(result) && wfResolver(result) && result.root == root
 //@   ensures  options-kept @@ expandOptions != nil ==> result.options == expandOptions
@@ -819,6 +824,7 @@ package spec
 //@ define derefRefOf(input interface{}) *Ref = holds(input, "*Schema") ? &asPtr(input, "*Schema").Ref : (holds(input, "*Parameter") ? &asPtr(input, "*Parameter").Ref : (holds(input, "*Response") ? &asPtr(input, "*Response").Ref : &asPtr(input, "*PathItem").Ref))
 
 //@ func (*schemaLoader).deref
+//@   strings  uninterpreted
 //@   property C04, C08, C18
 //@   appendview
 //@   requires wfResolver(r) && canonBase(basePath)
@@ -854,3 +860,89 @@ package spec
 //@   ensures  names @@ result0 == canonStr(normURI(s, base))
 //@   law      norm-idempotent @@ normURI(canonStr(normURI(s, base)), base) == canonStr(normURI(s, base))
 //@   law      norm-canonical @@ hasPrefix(urlPath(normURI(s, base)), "/") ==> canonBase(remoteOf(canonStr(normURI(s, base))))
+
+// ---- the schema recursion (expander.go): expandSchema / expandSchemaRef / expandItems
+// what stays true of the run across the recursion; f0 = failures at entry, strictMode = ContinueOnError off at entry
+//@ define runInv(r *schemaLoader, o *ExpandOptions, c ResolutionCache, x *resolverContext, coe bool, skip bool, abs bool, f0 int) bool =
+//@    loaderKept(r, o, c, x, coe, skip, abs) && failures >= f0 && (!coe ==> failures == f0)
+
+// elements of string slices that exist at entry are never overwritten; only the spare capacity of the stack of parent refs is written
+//@ define strElemsKept(parentRefs []string) bool = forall arr ptr, i int :: allocated(arr)
+//@       && !(arr == sliceArr(parentRefs) && i >= sliceOff(parentRefs) + len(parentRefs)) ==> memStr(elemAddr(arr, i)) == old(memStr(elemAddr(arr, i)))
+
+//@ func expandItems
+//@   strings  uninterpreted
+//@   property C04, C08, C03, C18
+//@   requires wfResolver(resolver) && canonBase(basePath) && distinctStr(parentRefs)
+//@   ensures  [C04] result-shape @@ result1 == nil ==> result0 != nil
+//@   ensures  kept @@ loaderKept(resolver, old(resolver.options), old(resolver.cache), old(resolver.context), old(resolver.options.ContinueOnError), old(resolver.options.SkipSchemas), old(resolver.options.AbsoluteCircularRef))
+//@   ensures  [C08] failures-monotone @@ failures >= old(failures)
+//@   ensures  [C08] strict-propagates @@ old(strict(resolver)) && failures > old(failures) ==> result1 != nil
+//@   ensures  [C08] no-spurious-error @@ result1 != nil ==> failures > old(failures)
+//@   ensures  [C08] continue-silent @@ !old(strict(resolver)) ==> result1 == nil
+//@   ensures  [C18] cache-dom-monotone @@ forall u string :: old(cacheDom[u]) ==> cacheDom[u]
+//@   ensures  [C03] memo-monotone @@ forall k string :: old(has(resolver.context.circulars, k)) ==> has(resolver.context.circulars, k)
+//@   ensures  loaders-immutable @@ forall l *schemaLoader :: allocated(l) ==> l.root == old(l.root) && l.options == old(l.options) && l.cache == old(l.cache) && l.context == old(l.context)
+//@   ensures  string-elements-kept @@ strElemsKept(parentRefs)
+//@   ensures  stack-kept @@ forall i int :: 0 <= i && i < len(parentRefs) ==> parentRefs[i] == old(parentRefs[i])
+//@   loop 0 invariant runInv(resolver, old(resolver.options), old(resolver.cache), old(resolver.context), old(resolver.options.ContinueOnError), old(resolver.options.SkipSchemas), old(resolver.options.AbsoluteCircularRef), old(failures))
+//@   loop 0 invariant forall u string :: old(cacheDom[u]) ==> cacheDom[u]
+//@   loop 0 invariant forall k string :: old(has(resolver.context.circulars, k)) ==> has(resolver.context.circulars, k)
+//@   loop 0 invariant forall i int :: 0 <= i && i < len(parentRefs) ==> parentRefs[i] == old(parentRefs[i])
+//@   loop 0 invariant forall l *schemaLoader :: allocated(l) ==> l.root == old(l.root) && l.options == old(l.options) && l.cache == old(l.cache) && l.context == old(l.context)
+//@   loop 0 invariant strElemsKept(parentRefs)
+
+//@ func expandSchema
+//@   strings  uninterpreted
+//@   property C04, C08, C03, C18
+//@   requires wfResolver(resolver) && canonBase(basePath) && distinctStr(parentRefs)
+//@   ensures  [C04] result-shape @@ result1 == nil ==> result0 != nil
+//@   ensures  kept @@ loaderKept(resolver, old(resolver.options), old(resolver.cache), old(resolver.context), old(resolver.options.ContinueOnError), old(resolver.options.SkipSchemas), old(resolver.options.AbsoluteCircularRef))
+//@   ensures  [C08] failures-monotone @@ failures >= old(failures)
+//@   ensures  [C08] strict-propagates @@ old(strict(resolver)) && failures > old(failures) ==> result1 != nil
+//@   ensures  [C08] no-spurious-error @@ result1 != nil ==> failures > old(failures)
+//@   ensures  [C08] continue-silent @@ !old(strict(resolver)) ==> result1 == nil
+//@   ensures  [C18] cache-dom-monotone @@ forall u string :: old(cacheDom[u]) ==> cacheDom[u]
+//@   ensures  [C03] memo-monotone @@ forall k string :: old(has(resolver.context.circulars, k)) ==> has(resolver.context.circulars, k)
+//@   ensures  loaders-immutable @@ forall l *schemaLoader :: allocated(l) ==> l.root == old(l.root) && l.options == old(l.options) && l.cache == old(l.cache) && l.context == old(l.context)
+//@   ensures  string-elements-kept @@ strElemsKept(parentRefs)
+//@   ensures  stack-kept @@ forall i int :: 0 <= i && i < len(parentRefs) ==> parentRefs[i] == old(parentRefs[i])
+
+//@ func expandSchemaRef
+//@   strings  uninterpreted
+//@   property C04, C08, C03, C18
+//@   appendview
+//@   requires wfResolver(resolver) && canonBase(basePath) && distinctStr(parentRefs)
+//@   requires refStringV(target.Ref) != ""
+//@   assumes  [C04] documents-have-paths @@ hasPrefix(urlPath(normURI(refStringV(target.Ref), basePath)), "/")
+//@   uses     verifLemmaNormIdem.norm-idempotent(refStringV(target.Ref), basePath)
+//@   uses     verifLemmaNormIdem.norm-canonical(refStringV(target.Ref), basePath)
+//@   uses     normalizeBase.keeps-canonical-base(remoteOf(canonStr(normURI(refStringV(target.Ref), basePath))))
+//@   uses     normalizeBase.non-empty(remoteOf(canonStr(normURI(refStringV(target.Ref), basePath))))
+//@   ensures  [C04] result-shape @@ result1 == nil ==> result0 != nil
+//@   ensures  kept @@ loaderKept(resolver, old(resolver.options), old(resolver.cache), old(resolver.context), old(resolver.options.ContinueOnError), old(resolver.options.SkipSchemas), old(resolver.options.AbsoluteCircularRef))
+//@   ensures  [C08] failures-monotone @@ failures >= old(failures)
+//@   ensures  [C08] strict-propagates @@ old(strict(resolver)) && failures > old(failures) ==> result1 != nil
+//@   ensures  [C08] no-spurious-error @@ result1 != nil ==> failures > old(failures)
+//@   ensures  [C08] continue-silent @@ !old(strict(resolver)) ==> result1 == nil
+//@   ensures  [C18] cache-dom-monotone @@ forall u string :: old(cacheDom[u]) ==> cacheDom[u]
+//@   ensures  [C03] memo-monotone @@ forall k string :: old(has(resolver.context.circulars, k)) ==> has(resolver.context.circulars, k)
+//@   ensures  loaders-immutable @@ forall l *schemaLoader :: allocated(l) ==> l.root == old(l.root) && l.options == old(l.options) && l.cache == old(l.cache) && l.context == old(l.context)
+//@   ensures  string-elements-kept @@ strElemsKept(parentRefs)
+//@   ensures  stack-kept @@ forall i int :: 0 <= i && i < len(parentRefs) ==> parentRefs[i] == old(parentRefs[i])
+
+//@ func normalizeRef
+//@   property C02, C04
+//@   requires ref != nil && urlOK(relativeBase)
+//@   assigns  nothing
+//@   ensures  freshObj(result) && result.referenceURL != nil && freshObj(result.referenceURL)
+//@   ensures  refString(result) == canonStr(normURI(refString(ref), relativeBase))
+//@   ensures  result.referenceURL.Scheme == urlScheme(normURI(refString(ref), relativeBase)) && result.referenceURL.Host == normHost(urlScheme(normURI(refString(ref), relativeBase)), urlHost(normURI(refString(ref), relativeBase)))
+//@            && result.referenceURL.Path == dedupSlashes(urlPath(normURI(refString(ref), relativeBase))) && result.referenceURL.RawQuery == urlQuery(normURI(refString(ref), relativeBase))
+//@            && result.referenceURL.Fragment == urlFrag(normURI(refString(ref), relativeBase))
+
+//@ func denormalizeRef
+//@   property C02, C03, C09
+//@   requires ref != nil && urlOK(originalRelativeBase)
+//@   assigns  nothing
+//@   ensures  true
